@@ -29,12 +29,18 @@ def main():
     rc, out = sh("cargo test --workspace --no-fail-fast --offline", cwd=WT)
     base_lines, base_failed = suite_summary(out)
     print("baseline at %s: %d result lines, failed=%s" % (head, len(base_lines), base_failed), flush=True)
-    inc = sorted(d for d in os.listdir(os.path.join(VERIF, "seeded")) if d.startswith("_incoming_"))
-    for d in inc:
-        pid = d.replace("_incoming_", "")
-        for x in ("a", "b"):
-            src = os.path.join(VERIF, "seeded", d, x)
-            name = "%s-%s" % (pid, x)
+    redo = "--all" in only
+    only = [o for o in only if o != "--all"]
+    todo = []
+    for d in sorted(os.listdir(os.path.join(VERIF, "seeded"))):
+        if d.startswith("_incoming_"):
+            pid = d.replace("_incoming_", "")
+            for x in "abcdef":
+                todo.append((pid, "%s-%s" % (pid, x), os.path.join(VERIF, "seeded", d, x)))
+        elif redo and re.match(r"^C\d\d-[a-z]$", d):
+            todo.append((d[:3], d, os.path.join(VERIF, "seeded", d)))
+    for pid, name, src in todo:
+        if True:
             if only and name not in only:
                 continue
             if not os.path.exists(os.path.join(src, "patch.diff")):
@@ -79,8 +85,14 @@ def main():
             if res["confirmed"]:
                 os.makedirs(dst, exist_ok=True)
                 for f in ("patch.diff", "demo.rs", "NOTES.md"):
-                    if os.path.exists(os.path.join(src, f)):
+                    if os.path.exists(os.path.join(src, f)) and os.path.abspath(src) != os.path.abspath(dst):
                         shutil.copyfile(os.path.join(src, f), os.path.join(dst, f))
+                old = {}
+                if os.path.exists(os.path.join(dst, "meta.json")):
+                    old = json.load(open(os.path.join(dst, "meta.json")))
+                for k in ("detected_by", "needs_to_manifest", "matrix"):
+                    if old.get(k):
+                        res[k] = old[k]
                 json.dump(res, open(os.path.join(dst, "meta.json"), "w"), indent=1)
             else:
                 json.dump(res, open(os.path.join(src, "confirm_failed.json"), "w"), indent=1)
